@@ -644,6 +644,14 @@ def search(ctx, hints):
     budget = ctx.pick(250, 4000) * (2 if getattr(ctx, "broken", None) else 1)
     for t in range(budget):
         cases.append(("gen", gen_case(rng, big=ctx.thorough and t % 4 == 0)))
+    # many small fits on symmetric integer grids (ties everywhere): the inertia can plateau while the centres still move,
+    # which is where labels_ / inertia_ and the returned centres can come apart
+    for t in range(ctx.pick(3000, 20000)):
+        n = rng.randint(8, 14)
+        cases.append(("grid", {"flavour": "grid", "mode": "random", "X": [[rng.randint(-3, 3), rng.randint(-3, 3)] for _ in range(n)],
+                               "k": rng.choice([2, 3]), "d": 2, "init": "random", "n_init": 1,
+                               "max_iter": rng.choice([3, 5, 10, 30]), "dtype": "float64", "seed": rng.randrange(1 << 30),
+                               "Q": [[0, 0]]}))
     for origin, case in cases:
         if case["init"] == "callable" and case.get("kind") == "L2":
             case["init"] = "random"
